@@ -31,7 +31,7 @@ OWN = {
     "C01": ["OneResponse", "WellFormed", "NeverTorn", "ThenClosed", "AnsweredWhenQuiet", "TimerWhileWaiting", "Progress"],
     "C04": ["GateC04", "NoneBeyondRefusal", "FirstRejectionWins"],
     "C07": ["AtMostOnce", "SegIndep", "Progress"],
-    "C08": ["OnlyValidReachHandler", "SegIndep"],
+    "C08": ["OnlyValidReachHandler", "SegIndep", "Progress"],
     "C15": ["TimerWhileWaiting", "TimeoutHarmless", "TimeoutAnswers"],
 }
 DEVIATIONS = {
